@@ -442,11 +442,12 @@ theorem src_fit_history_reads :
     fitHistoryReads .TO = [] ∧ fitHistoryReads .EG = [] ∧ fitHistoryReads .GS = [] ∧
     fitHistoryReads .CR = ["lookup_ in _split_X"] := by decide +kernel
 
-/-- attributes `fit` reads that only `__init__` sets and `get_params` does not report: GridSearch's
-    `objective_weight` (= 1 − constraint_weight at construction; `set_params(constraint_weight=…)` does not update it) -/
+/-- `fit` and the prediction entry points read no attribute that only `__init__` sets (and `get_params` does not
+    report).  GridSearch still DERIVES `objective_weight = 1 − constraint_weight` in `__init__`, but since the repair of
+    F5f (/repo 2f54dd0) nothing reads it. -/
 theorem src_init_derived_reads :
-    initDerivedReads .TO = [] ∧ initDerivedReads .EG = [] ∧ initDerivedReads .CR = [] ∧
-    initDerivedReads .GS = ["objective_weight"] := by decide +kernel
+    initDerivedReads .TO = [] ∧ initDerivedReads .EG = [] ∧ initDerivedReads .CR = [] ∧ initDerivedReads .GS = [] ∧
+    initDerivedDeps .GS = [("objective_weight", ["constraint_weight"])] := by decide +kernel
 
 /-- GENERIC: a `fit` that reads no stale fitted state and unconditionally reassigns every attribute a prediction reads
     leaves the same observable fitted state whatever the estimator's history was (any old state, any branch choices) —
@@ -630,23 +631,25 @@ example : view false 0 [.fit D1, .setParam 1, .predict, .fit D2, .setParam 0, .f
     [(.retSelf, .fresh D1 0), (.ok, .fresh D1 0), (.ok, .fresh D1 0), (.retSelf, .fresh D2 1), (.ok, .fresh D2 1),
      (.retSelf, .fresh D1 0)] := by decide
 
-/-- from the source: ThresholdOptimizer, ExponentiatedGradient, CorrelationRemover and the adversarial estimators
-    read no parameter-derived attribute in `fit` (what their `__init__` derives depends on no parameter) … -/
+/-- from the source: no estimator reads, in `fit` or a prediction entry point, an attribute that `__init__` derived
+    from a constructor parameter (what the adversarial `__init__` chain derives depends on no parameter; GridSearch's
+    `objective_weight` is no longer read) … -/
 theorem src_no_stale_derived :
-    ∀ c ∈ [EstCls.TO, .EG, .CR, .ADV, .ADVC, .ADVR], staleAfterSetParams c = [] := by decide +kernel
+    ∀ c ∈ [EstCls.TO, .EG, .GS, .CR, .ADV, .ADVC, .ADVR], staleAfterSetParams c = [] := by decide +kernel
 
 /-- … so their `set_params` histories refine the specification -/
-theorem src_params_refines_spec (c : EstCls) (hc : c ∈ [EstCls.TO, .EG, .CR, .ADV, .ADVC, .ADVR]) (p0 : Nat)
+theorem src_params_refines_spec (c : EstCls) (hc : c ∈ [EstCls.TO, .EG, .GS, .CR, .ADV, .ADVC, .ADVR]) (p0 : Nat)
     (ops : List POp) : view (readsDerivedSrc c) p0 ops = specView p0 ops := by
   have h : readsDerivedSrc c = false := by
     unfold readsDerivedSrc; rw [src_no_stale_derived c hc]; rfl
   rw [h]; exact view_false_eq_spec p0 ops
 
-/-- FINDING F5f (known, kept visible): `GridSearch.fit` reads `objective_weight`, which `__init__` computed as
-    `1.0 - constraint_weight` and `set_params(constraint_weight=…)` does not update -/
-theorem src_gs_stale_objective_weight :
-    staleAfterSetParams .GS = ["objective_weight"] ∧
-    view (readsDerivedSrc .GS) 0 [.setParam 1, .fit D1] = [(.ok, .unfitted), (.retSelf, .other)] := by
+/-- F5f (found by this check, repaired in /repo 2f54dd0): `GridSearch.fit` used to read `objective_weight`, which
+    `__init__` computed as `1.0 - constraint_weight` and `set_params(constraint_weight=…)` does not update — the stale
+    machine `view true` above (`params_stale_derived_not_spec`).  Today's source: the machine reads no derived attribute. -/
+theorem src_gs_set_params_repaired :
+    readsDerivedSrc .GS = false ∧
+    view (readsDerivedSrc .GS) 0 [.setParam 1, .fit D1] = [(.ok, .unfitted), (.retSelf, .fresh D1 1)] := by
   decide +kernel
 
 end Params
